@@ -16,7 +16,7 @@ from typing import List, Tuple, Union
 
 from ..qcircuit import QCircuit
 from ..qlassfun import QlassF
-from ..types import Qtype, interpret_as_qtype
+from ..types import Qtype, format_outcome
 from .qalgorithm import QAlgorithm
 
 
@@ -67,5 +67,8 @@ class DeutschJozsa(QAlgorithm):
     def decode_output(
         self, istr: Union[str, int, List[bool]]
     ) -> Union[bool, Tuple, Qtype, str]:
-        iq = interpret_as_qtype(istr, self.f.args[0].ttype, len(self.f.args[0]))
-        return "Constant" if iq == 0 else "Balanced"
+        # the function is constant iff every measured bit is 0: the value decoded in the argument's
+        # type cannot be compared with 0 when that type is a tuple, a list or a char
+        n = len(self.f.args[0])
+        bits = list(reversed(format_outcome(istr, n)))[:n]  # as interpret_as_qtype reads them
+        return "Balanced" if any(bits) else "Constant"
